@@ -953,6 +953,13 @@ impl Task {
         requires h.has(self.id@)
         ensures tasks_ok(*h, final(path)@), r is Some ==> wf_task(*h, *r->Some_0) && r->Some_0.node.s_kind() == NodeKind::Step && r->Some_0.node.id@ == nid@ && r->Some_0.id@ != self.id@,
     { unimplemented!() }
+    // R7: `task.follows(&|t| t.is_kind(NodeKind::Step) && t.is_acts(), &mut path_tasks)` -- follows with the step-with-acts predicate: the nearest
+    // following step tasks that have acts; the tasks passed on the way are collected in `path` (their state is re-read by the caller)
+    #[verifier::external_body]
+    pub fn follows_step_acts(&self, path: &mut Vec<Arc<Task>>, Tracked(h): Tracked<&Heap>) -> (r: Vec<Arc<Task>>)
+        requires h.has(self.id@)
+        ensures tasks_ok(*h, final(path)@), tasks_ok(*h, r@),
+    { unimplemented!() }
     // task.rs: create_context = Context::new(proc, task): a context whose current task is this task
     #[verifier::external_body]
     pub fn create_context(self: &Arc<Self>, Tracked(h): Tracked<&mut Heap>) -> (r: Context)
